@@ -315,7 +315,15 @@ func c14Run(t *testing.T, sc Scenario, res *Result) {
 		}
 		setFlags(fl)
 		tb := newTB("C14")
-		runCheck(tb, prop)
+		if mix(sc.Seed, 0x7b)%3 == 0 {
+			// a TB that has a Context of its own (Go 1.24+): the slow path of T.Context then calls into the TB
+			parent, cancelParent := context.WithCancel(context.Background())
+			defer cancelParent()
+			runCheckAs(tb, ctxTB{tb, parent}, prop)
+			res.inc("checks_on_a_TB_with_Context")
+		} else {
+			runCheck(tb, prop)
+		}
 		res.inc("checks_run")
 		rp := parseReport(tb)
 		anyFail := false
